@@ -105,7 +105,7 @@ theorem honest_complete : pumpQ P cc ct sc st 3 .waitResPQ .waitReqPQ (.reqPQ ct
     cases o1 with
     | none => simp
     | some m1 =>
-      obtain ⟨sn, _, _, _, _, _, _, _, _, _, hc1, _⟩ := onResPQ_some P cc ct _ c1 m1 h1
+      obtain ⟨sn, _, _, _, _, _, _, _, _, _, _, hc1, _⟩ := onResPQ_some P cc ct _ c1 m1 h1
       subst hc1
       simp only
       cases hs2 : (sstep P sc st (.waitReqDH ct.nonce) m1).2 with
